@@ -372,6 +372,45 @@ theorem C05_exportList_hang_witness (cm : Bool) (iters : Nat) (pre : List Byte) 
     ∀ fuel, exportLoop false cm iters fuel ⟨pre, [], true, true, true⟩ chComma 0 = .outOfFuel :=
   fun fuel => exportLoop_unchecked_spins cm iters pre true fuel 0
 
+/-! ## `GetLiteralStr` reads a string literal in time linear in its length
+
+The loop makes one iteration per character and calls `StrEndsWith( s, "\\S\\" )` for every apostrophe; with the
+regenerated shape of `StrEndsWith` (it inspects only the last `|suffix|` characters) the total number of character
+operations is at most `4·|remaining bytes| + 1`. -/
+
+theorem litLoopCost_suffixOnly (r acc : List Byte) (esc : Bool) :
+    litLoopCost .suffixOnly r acc esc ≤ 4 * r.length + 1 := by
+  fun_induction litLoopCost .suffixOnly r acc esc <;> simp_all [endsWithCost] <;> omega
+
+theorem C05_getLiteralStr_linear (r acc : List Byte) (esc : Bool) :
+    litLoopCost C05.strEndsWithShape r acc esc ≤ 4 * r.length + 1 := by
+  have h : C05.strEndsWithShape = .suffixOnly := by decide
+  rw [h]; exact litLoopCost_suffixOnly r acc esc
+
+/-- triangular numbers: `tri n = 0 + 1 + … + (n-1)` -/
+def tri : Nat → Nat
+  | 0 => 0
+  | n + 1 => tri n + n
+
+theorem tri_quadratic (n : Nat) : 2 * tri n + n = n * n := by
+  induction n with
+  | zero => rfl
+  | succ n ih => simp only [tri, Nat.succ_mul, Nat.mul_succ]; omega
+
+/-- a `StrEndsWith` that may scan the whole string (seeded regression C05-b2: `s.rfind( suf ) == sLen - suffixLen`)
+makes a literal of `n` doubled apostrophes (the legal escape) cost at least `n·|read so far| + n(n-1)/2`: quadratic -/
+theorem C05_getLiteralStr_quadratic_witness (n : Nat) (acc : List Byte) (esc : Bool) :
+    n * acc.length + tri n ≤ litLoopCost .wholeString (List.replicate n chQuote) acc esc := by
+  induction n generalizing acc esc with
+  | zero => simp [tri]
+  | succ n ih =>
+    have := ih (chQuote :: acc) (if endsSlashS acc then esc else !esc)
+    simp only [List.replicate, litLoopCost, endsWithCost, if_true, tri, List.length_cons, Nat.succ_mul, Nat.mul_succ] at this ⊢
+    omega
+
+example (n : Nat) : litLoopCost .suffixOnly (List.replicate n chQuote) [chQuote] true ≤ 4 * n + 1 := by
+  simpa using litLoopCost_suffixOnly (List.replicate n chQuote) [chQuote] true
+
 /-- regenerated facts the file-level budget relies on (not modelled proofs): the comment limit and the error cut-off
 are finite constants of the size the constant `c₂` of the linear bound absorbs, and `PushPastImbedAggr` does not
 recurse on the nesting depth of the input -/
